@@ -242,6 +242,18 @@ func TestWorker(t *testing.T) {
 			out.Samples = append(out.Samples, s)
 		}
 		if len(res.Violations) > 0 {
+			// a violation fully explained by a listed known finding is recorded
+			// without minimisation and the search goes on
+			if kf := known.match(&ReplayFile{Violation: violationStrings(res.Violations)}); kf != "" && len(res.Violations) <= 6 {
+				found := false
+				for _, s := range out.Known {
+					found = found || s == kf
+				}
+				if !found {
+					out.Known = append(out.Known, kf)
+				}
+				continue
+			}
 			rf := minimise(t, prop, res, shrinkBudget)
 			rf.Property, rf.BaseSeed, rf.RunIndex, rf.RunSeed, rf.Tier = propID, base, idx, seed, tier
 			if kf := known.match(rf); kf != "" {
